@@ -19,6 +19,8 @@ from collections import Counter
 from . import common, gen, iotrace, model, rawread
 
 CRASH_EXIT = 77
+SAME_HANDLE_FOLLOWUP_KINDS = {'fsync', 'fdatasync', 'fcntl', 'flush', 'sql:commit', 'sql:INSERT', 'sql:UPDATE', 'sql:DELETE'}
+FOLLOWUP_CONTENT = b'follow-up object written through the same handle after the failed call ' * 3
 
 
 # --------------------------------------------------------------------------------------- children
@@ -96,6 +98,8 @@ class Template:
                 self.deleted |= {probe.key(s) for s in op.get('cs', [])}
         self.known = dict(self.new_contents)
         self.known.update(self.pre_model)
+        self.followup_key = probe.H(FOLLOWUP_CONTENT)
+        self.known[self.followup_key] = FOLLOWUP_CONTENT  # may be added through the same handle after a failed call (fault lab)
         self.ncopies = 0
 
     def copy(self) -> str:
@@ -208,9 +212,19 @@ def fault_run(tmpl: Template, k: int, errname: str, eligible_kinds):
 
     def child():
         plan = iotrace.FaultAt(k, errname, eligible=lambda ev: ev.kind in eligible_kinds)
-        _world, info = _apply_ops(rundir, tmpl, plan)
+        world, info = _apply_ops(rundir, tmpl, plan)
         info['fired'] = plan.fired.brief() if plan.fired else None
         info['fired_shape'] = plan.fired.shape() if plan.fired else None
+        info['followup'] = None
+        if info['raised'] and plan.fired is not None and plan.fired.kind in SAME_HANDLE_FOLLOWUP_KINDS:
+            # The application catches the error and goes on with the SAME handle: whatever the failed call left pending in the
+            # handle's index session may get committed by the next call, so it must never point at bytes that are not in the pack.
+            # (Only after faults that leave the written bytes in place: sync calls, flush, SQL statements/commit.)
+            try:
+                world.handle().add_objects_to_pack([FOLLOWUP_CONTENT])
+                info['followup'] = 'committed'
+            except BaseException as exc:  # noqa: BLE001 - the handle may legitimately be unusable after the error
+                info['followup'] = f'raised {type(exc).__name__}'
         return info
 
     status, res = run_child(child, os.path.join(rundir, 'result.json'))
@@ -227,6 +241,8 @@ def rerun(tmpl: Template, rundir: str):
     def child():
         world, info = _apply_ops(rundir, tmpl, None, lenient=True)
         world.model = tmpl.post_model()
+        if tmpl.followup_key in rawread.Snapshot(root).visible_keys():
+            world.model[tmpl.followup_key] = FOLLOWUP_CONTENT  # the follow-up object of the same-handle continuation
         if not info['raised']:
             from disk_objectstore import Container  # pylint: disable=import-outside-toplevel
 
